@@ -66,6 +66,8 @@ class CFG(object):
             o = self._block(st.orelse, nxt, ctx)
             self._edge(t.id, b, 'T')
             self._edge(t.id, o, 'F')
+            if ctx.in_try and any(isinstance(x, ast.Call) for x in ast.walk(st.test)):
+                self._edge(t.id, ctx.raise_target(self), 'exc')
             return t.id
         if isinstance(st, (ast.For, ast.While)):
             h = self._new('loop', st)
@@ -78,6 +80,8 @@ class CFG(object):
         if isinstance(st, ast.Return):
             n = self._new('return', st)
             self._edge(n.id, ctx.unwind(self, 'return', ctx.ret), None)
+            if ctx.in_try and st.value is not None and any(isinstance(x, ast.Call) for x in ast.walk(st.value)):
+                self._edge(n.id, ctx.raise_target(self), 'exc')
             return n.id
         if isinstance(st, ast.Raise):
             n = self._new('raise', st)
@@ -252,6 +256,10 @@ def defs_of_node(n):
             for t in st.targets:
                 if isinstance(t, ast.Name):
                     out.append((t.id, st, st.value))
+                elif isinstance(t, (ast.Tuple, ast.List)) and all(isinstance(e, ast.Name) for e in t.elts) \
+                        and isinstance(st.value, (ast.Call, ast.Tuple)):
+                    for i, e in enumerate(t.elts):
+                        out.append((e.id, st, ast.Subscript(value=st.value, slice=ast.Constant(i), ctx=ast.Load())))
                 else:
                     for nm in target_names(t):
                         out.append((nm, st, None))
@@ -382,7 +390,7 @@ class FuncView(object):
         return st
 
     # ------------------------------------------------------------------ expansion
-    def expand(self, expr, stmt, depth=12, stop=None, keep=()):
+    def expand(self, expr, stmt, depth=12, stop=None, keep=(), inline=True):
         """Substitute every local name by its unique reaching definition's value (recursively).
         Names with several reaching defs, loop targets, parameters and `keep` names stay; a
         re-defined name that cannot be substituted is tagged `name@line` so two different
@@ -401,9 +409,9 @@ class FuncView(object):
                     if d.node is None:
                         return n      # parameter
                     if d.value is not None and depth > 0 and (stop is None or not stop(d)) \
-                            and not (isinstance(d.value, (ast.List, ast.Dict, ast.Set, ast.ListComp, ast.DictComp))
-                                     and view.is_mutated(n.id)):
-                        return view.expand(copy.deepcopy(d.value), d.node, depth - 1, stop, keep)
+                            and not isinstance(d.value, (ast.ListComp, ast.DictComp, ast.SetComp, ast.GeneratorExp)) \
+                            and not (isinstance(d.value, (ast.List, ast.Dict, ast.Set)) and view.is_mutated(n.id)):
+                        return view.expand(copy.deepcopy(d.value), d.node, depth - 1, stop, keep, inline)
                     if view.n_defs(n.id) <= 1:
                         return n      # the only definition of this name in the function (loop target, container)
                     return ast.copy_location(ast.Name(id='%s@%d' % (n.id, d.node.lineno), ctx=ast.Load()), n)
@@ -417,6 +425,22 @@ class FuncView(object):
                 return n
 
             def visit_ListComp(s, n):
+                return n
+
+            def visit_Call(s, n):
+                orig = n
+                n = s.generic_visit(n)
+                if depth > 0 and inline:
+                    r = inline_simple_call(view, orig, n)
+                    if r is not None:
+                        return view.expand(r, stmt, depth - 1, stop, keep, inline)
+                return n
+
+            def visit_Subscript(s, n):
+                n = s.generic_visit(n)
+                if isinstance(n.value, ast.Tuple) and isinstance(n.slice, ast.Constant) and isinstance(n.slice.value, int) \
+                        and 0 <= n.slice.value < len(n.value.elts):
+                    return n.value.elts[n.slice.value]
                 return n
         return T().visit(copy.deepcopy(expr))
 
@@ -443,6 +467,78 @@ class FuncView(object):
     def single_def(self, name, stmt):
         ds = self.reaching(name, stmt)
         return ds[0] if len(ds) == 1 else None
+
+
+NO_INLINE = set()
+
+
+def simple_return(callee):
+    """The expression a *simple helper* returns, over its own parameters: the body is straight-line
+    (assignments to names, then one return). -> expr or None"""
+    body = [x for x in callee.node.body if not (isinstance(x, ast.Expr) and isinstance(x.value, ast.Constant))]
+    if not body or not isinstance(body[-1], ast.Return) or body[-1].value is None:
+        return None
+    for x in body[:-1]:
+        if not (isinstance(x, ast.Assign) and all(isinstance(t, ast.Name) for t in x.targets)):
+            return None
+    if len(body) > 8:
+        return None
+    cv = view_of(callee)
+    return cv.expand(body[-1].value, body[-1], inline=True)
+
+
+def inline_simple_call(view, orig_call, expanded_call):
+    """orig_call (a node of view's function, or a copy) resolved to a simple repository helper ->
+    its return expression with parameters replaced by the (expanded) arguments"""
+    repo = getattr(view.f.module, 'repo', None)
+    if repo is None:
+        return None
+    try:
+        r = repo._resolve(view.f, orig_call, repo.local_types(view.f))
+    except Exception:
+        return None
+    if r is None:
+        return None
+    callee, kind, args, kws = r
+    if callee.where in NO_INLINE or callee.name.startswith('validate_') or callee is view.f:
+        return None
+    if not (callee.module is view.f.module or callee.outer is not None or callee.name.startswith('_')):
+        return None
+    # only helpers, never the documented building blocks rules match by name
+    if callee.name in ('get_prefix_length', 'get_size_lower_bound', 'get_size_upper_bound', 'get_overlap_threshold',
+                       'get_output_row_from_tables', 'get_output_header_from_tables', 'find_output_attribute_indices',
+                       'convert_dataframe_to_array', 'get_attrs_to_project', 'remove_redundant_attrs', 'split_table',
+                       'get_num_processes_to_launch', 'build_dict_from_table', 'generate_tokens', 'overlap',
+                       'get_sim_function', 'order_using_token_ordering', 'gen_token_ordering_for_tables',
+                       'gen_token_ordering_for_lists', 'get_pairs_with_missing_value', 'series_to_str'):
+        return None
+    e = simple_return(callee)
+    if e is None:
+        return None
+    from .model import bind
+    b = bind(callee, kind, expanded_call.args, expanded_call.keywords)
+    mapping = {}
+    params = list(callee.params)
+    if kind in ('method', 'ctor') and params and params[0] == 'self':
+        recv = expanded_call.func.value if isinstance(expanded_call.func, ast.Attribute) else None
+        if recv is None:
+            return None
+        mapping['self'] = recv
+    for p_, a in b.items():
+        mapping[p_] = a
+    missing = [p_ for p_ in (params[1:] if 'self' in mapping else params) if p_ not in mapping]
+    if missing:
+        return None
+
+    class S(ast.NodeTransformer):
+        def visit_Name(s, n):
+            if isinstance(n.ctx, ast.Load) and n.id in mapping:
+                return copy.deepcopy(mapping[n.id])
+            return n
+
+        def visit_Lambda(s, n):
+            return n
+    return S().visit(copy.deepcopy(e))
 
 
 def _header_parts(st):
